@@ -72,6 +72,24 @@ partial def canon : Json → String
 partial def jsonBeq : Json → Json → Bool
   | a, b => canon a == canon b
 
+partial def gexprSexp : GExpr → Sexp
+  | .lit s => .list [.atom "lit", .atom s]
+  | .var x => .list [.atom "var", .atom x]
+  | .callFn f a => .list [.atom "callfn", .atom f, gexprSexp a]
+  | .callMethod r m => .list [.atom "callm", gexprSexp r, .atom m]
+  | .concat l r => .list [.atom "concat", gexprSexp l, gexprSexp r]
+
+def methodSexp (m : GMethod) : Sexp :=
+  .list ([.atom "method", .atom m.name, .list [.atom m.param], .atom "string"] ++
+    m.arms.map fun a => .list [.atom "arm", .list (a.patPath.map .atom), .list (a.patFields.map .atom),
+      .list (a.binders.map .atom), gexprSexp a.body])
+
+/-- what `derive::expand` appends: per definition the `to_string` impl, then the `to_json` impl -/
+def derivedSexp (wantJson wantString : Bool) (Δ : Defs) : Sexp :=
+  .list (.atom "derived" :: Δ.flatMap fun d =>
+    (if wantString then [Sexp.list [.atom "impl", .atom d.name, methodSexp (genString bindFresh d)]] else []) ++
+    (if wantJson then [Sexp.list [.atom "impl", .atom d.name, methodSexp (genJson bindFresh d)]] else []))
+
 def modelLine (id : String) (flags defs vals : List Sexp) : String :=
   match optMapM decDef defs, optMapM decTopVal vals with
   | some Δ, some vs =>
@@ -84,7 +102,7 @@ def modelLine (id : String) (flags defs vals : List Sexp) : String :=
     let sc := Δ.all fun d => (genJson bindFresh d).scoped && (genString bindFresh d).scoped
     let scOld := Δ.all fun d => (genJson bindFieldName d).scoped && (genString bindFieldName d).scoped
     if typed then
-      s!"{id}\tmodel\t{SemRun.escOut (String.join (js ++ ss))}\t{if acc then "yes" else "no"}\t{if sc then "yes" else "no"}\t{if scOld then "yes" else "no"}"
+      s!"{id}\tmodel\t{SemRun.escOut (String.join (js ++ ss))}\t{if acc then "yes" else "no"}\t{if sc then "yes" else "no"}\t{if scOld then "yes" else "no"}\t{derivedSexp wantJson wantString Δ}"
     else s!"{id}\tmodel-error\tvalue does not have its type"
   | _, _ => s!"{id}\tparse-error"
 
